@@ -220,10 +220,10 @@ theorem directiveNodes_eq (d : Directive) :
     by_cases h : c.symbol = []
     · simp [directiveNodes, h]
     · have : (c.symbol == []) = false := by simpa using h
-      simp [directiveNodes, this, h, dirComNode, directiveCommodityRange, nameRange, lexeme]
+      simp [directiveNodes, this, h, dirComNode, directiveCommodityRange, directiveLexeme, nameRange, lexeme, tokenRange, ARange.ofRng]
   | price dt c p r =>
     by_cases h : c.symbol = [] <;> by_cases h2 : p.commodity.symbol = [] <;>
-      simp [directiveNodes, commodityNode, h, h2, dirComNode, directiveCommodityRange, nameRange, lexeme, comNode, tokenRange, ARange.ofRng]
+      simp [directiveNodes, commodityNode, h, h2, dirComNode, directiveCommodityRange, directiveLexeme, nameRange, lexeme, comNode, tokenRange, ARange.ofRng]
   | year y r => simp [directiveNodes]
   | defaultCommodity s f r => simp [directiveNodes]
 
